@@ -59,6 +59,9 @@ def judge_hdr(case, res):
         return []
     bad += ["from_bytes " + b for b in same(g["mem"], case, False)]
     bad += ["from_read " + b for b in same(g["read"], case, True)]
+    # the same stream through readers that return 1, 2, 3, 7, 19 or 21 bytes per call must decode identically
+    for d in g["read"].get("chunked_differs", []):
+        bad.append("from_read through a reader that returns at most %d bytes per call differs from reading the whole buffer: %s" % (d["k"], json.dumps({k: d[k] for k in ("ok", "type", "consumed", "pos", "base", "err")})[:200]))
     if case["canonical"] and g["mem"]["ok"] and g["mem"]["hsize"] != case["consumed"]:
         bad.append("header_size of the decoded entry is %d, it occupies %d" % (g["mem"]["hsize"], case["consumed"]))
     return bad
